@@ -48,6 +48,9 @@ enum Second {
     None,
     RightBehind(i32),
     FromOtherThreadAfter(i32),
+    /// a further arbiter is created after the first stop and before the second one (both stops
+    /// issued on the system thread before `run`): it was created before *a* stop was issued
+    AfterNewArbiter(i32),
 }
 
 #[derive(Clone, Debug)]
@@ -82,6 +85,8 @@ fn case_from(v: &Value) -> Case {
         Second::None
     } else if s.starts_with("RightBehind") {
         Second::RightBehind(num(s) as i32)
+    } else if s.starts_with("AfterNewArbiter") {
+        Second::AfterNewArbiter(num(s) as i32)
     } else {
         Second::FromOtherThreadAfter(num(s) as i32)
     };
@@ -172,7 +177,28 @@ fn run_case(c: &Case) -> Outcome {
         }
     }
     let (code, second) = (c.code, c.second);
+    let mut fates = c.fates.clone();
     match c.origin {
+        Origin::BeforeRun if matches!(second, Second::AfterNewArbiter(_)) => {
+            sys.stop_with_code(code);
+            let late = Arbiter::new();
+            let flag = Arc::new(AtomicBool::new(false));
+            {
+                let flag = flag.clone();
+                let (tx, rx) = channel();
+                late.spawn_fn(move || {
+                    EXIT.with(|e| *e.borrow_mut() = Some(ExitFlag(flag)));
+                    let _ = tx.send(());
+                });
+                let _ = rx.recv_timeout(Duration::from_secs(5));
+            }
+            flags.push(flag);
+            arbs.push(Some(late));
+            fates.push(Fate::Running);
+            if let Second::AfterNewArbiter(c2) = second {
+                sys.stop_with_code(c2);
+            }
+        }
         Origin::BeforeRun => issue(&sys, code, second),
         Origin::ForeignThread => {
             let s2 = sys.clone();
@@ -229,7 +255,7 @@ fn run_case(c: &Case) -> Outcome {
     // every arbiter created before the stop must end
     let mut ended = vec![];
     for (i, a) in arbs.into_iter().enumerate() {
-        match (a, c.fates[i]) {
+        match (a, fates[i]) {
             (_, Fate::EarlyStopJoin) => ended.push(None),
             (Some(a), _) => {
                 let (tx, rx) = channel();
@@ -266,6 +292,9 @@ fn check(c: &Case, o: &Outcome) -> Option<(String, String)> {
     for (i, e) in o.ended.iter().enumerate() {
         if *e == Some(false) {
             let sig = if matches!(c.origin, Origin::ArbiterThenDies(_)) { "C09:arbiter-not-stopped:with-a-dead-arbiter-still-registered" } else { "C09:arbiter-not-stopped" };
+            if i >= c.fates.len() {
+                return Some(("C09:arbiter-created-between-two-stops-not-stopped".into(), format!("the arbiter created after the first stop and before the second one was still running {:?} after the system stopped", crate::WATCHDOG / 2)));
+            }
             return Some((sig.into(), format!("arbiter {i} ({:?}) was still running {:?} after the system stopped", c.fates[i], crate::WATCHDOG / 2)));
         }
     }
@@ -299,6 +328,9 @@ fn enumerate(max_n: usize) -> Vec<Case> {
                             out.push(Case { fates: fates.clone(), origin, code, second, use_run });
                         }
                     }
+                    if origin == Origin::BeforeRun && n <= 2 && (code == 0 || code == 7) {
+                        out.push(Case { fates: fates.clone(), origin, code, second: Second::AfterNewArbiter(9), use_run: false });
+                    }
                 }
             }
         }
@@ -330,10 +362,73 @@ fn enumerate_busy(max_backlog: usize, step_above_40: usize) -> Vec<Case> {
     out
 }
 
+/// An arbiter whose runtime factory is slow (held at a gate): `Arbiter::with_tokio_rt` must not
+/// return before the arbiter's thread has started and registered, else a stop issued right after
+/// cannot reach it. The gate opens when the constructor has returned or after `cap`.
+fn run_slow_factory(foreign_stop: bool, cap: Duration) -> Option<(String, String)> {
+    let runner = System::new();
+    let sys = System::current();
+    let (gate_tx, gate_rx) = channel::<()>();
+    let (ret_tx, ret_rx) = channel::<()>();
+    let factory_done = Arc::new(AtomicBool::new(false));
+    let releaser = std::thread::spawn(move || {
+        let _ = ret_rx.recv_timeout(cap);
+        drop(gate_tx);
+    });
+    let fd = factory_done.clone();
+    let gate_rx = std::sync::Mutex::new(gate_rx);
+    let arb = Arbiter::with_tokio_rt(move || {
+        let _ = gate_rx.lock().unwrap().recv();
+        fd.store(true, Ordering::SeqCst);
+        tokio::runtime::Builder::new_current_thread().enable_all().build().unwrap()
+    });
+    let started_at_return = factory_done.load(Ordering::SeqCst);
+    if foreign_stop {
+        let s2 = sys.clone();
+        std::thread::spawn(move || s2.stop_with_code(3)).join().unwrap();
+    } else {
+        sys.stop_with_code(3);
+    }
+    let _ = ret_tx.send(());
+    let _ = releaser.join();
+    let code = runner.run_with_code();
+    let (tx, rx) = channel();
+    std::thread::spawn(move || {
+        let _ = arb.join();
+        let _ = tx.send(());
+    });
+    let ended = rx.recv_timeout(crate::WATCHDOG / 2).is_ok();
+    if !started_at_return {
+        return Some(("C09:arbiter-constructor-returned-before-the-thread-registered".into(), format!("Arbiter::with_tokio_rt returned while the arbiter's thread was still building its runtime (not registered with the system yet); a stop issued right after it {} (run returned {:?})", if ended { "still ended it" } else { "never reached it: join did not return" }, code.map_err(|e| e.to_string()))));
+    }
+    if !ended {
+        return Some(("C09:arbiter-not-stopped".into(), "an arbiter with a slow runtime factory, created before the stop, was still running after the system stopped".into()));
+    }
+    match code {
+        Ok(3) => None,
+        other => Some(("C09:wrong-exit-code".into(), format!("run returned {:?}, stop_with_code(3) was the only stop", other.map_err(|e| e.to_string())))),
+    }
+}
+
 pub fn run(args: &Args) -> i32 {
     let mut rep = Report::new(args, "model_checking");
     if let Some(p) = &args.replay {
         let r = mcutil::load_replay(p);
+        if r["kind"] == "slow-factory" {
+            let (f, cap) = (r["foreign_stop"].as_bool().unwrap_or(false), Duration::from_millis(r["cap_ms"].as_u64().unwrap_or(1500)));
+            match crate::with_watchdog(cap + crate::WATCHDOG * 2, move || run_slow_factory(f, cap)) {
+                Ok(None) => println!("replay verdict: holds"),
+                Ok(Some((sig, msg))) => {
+                    println!("replay verdict: violates ({sig}: {msg})");
+                    rep.violation(Violation { signature: sig, summary: msg, replay: r.clone() });
+                }
+                Err(e) => {
+                    println!("replay verdict: violates (deadlock: {e})");
+                    rep.violation(Violation { signature: "C09:deadlock".into(), summary: e, replay: r.clone() });
+                }
+            }
+            return rep.finish();
+        }
         let c = case_from(&r);
         println!("{:?}", c);
         for _ in 0..2 {
@@ -399,6 +494,22 @@ pub fn run(args: &Args) -> i32 {
             Err(e) => bag.add("C09:deadlock", || Violation { signature: "C09:deadlock".into(), summary: format!("{e} [{:?}]", c), replay: case_json(c) }),
         }
     }
+    // slow runtime factories (real time: the gate stays shut for `cap` on a correct tree)
+    let cap = Duration::from_millis(args.opt_usize("slowcap_ms", args.tier.pick(1500, 6000)) as u64);
+    let slow = mcutil::par_map(2, &[false, true], |_, foreign| {
+        let f = *foreign;
+        crate::with_watchdog(cap + crate::WATCHDOG * 2, move || run_slow_factory(f, cap))
+    });
+    for (i, r) in slow.into_iter().enumerate() {
+        let replay = json!({"kind": "slow-factory", "foreign_stop": i == 1, "cap_ms": cap.as_millis() as u64});
+        match r {
+            Ok(None) => {}
+            Ok(Some((sig, msg))) => bag.add(&sig.clone(), || Violation { signature: sig.clone(), summary: msg.clone(), replay: replay.clone() }),
+            Err(e) => bag.add("C09:deadlock", || Violation { signature: "C09:deadlock".into(), summary: format!("slow-factory case: {e}"), replay: replay.clone() }),
+        }
+    }
+    rep.set("slow_runtime_factory_cases", 2);
+    rep.set("slow_runtime_factory_gate_ms", cap.as_millis() as u64);
     bag.drain_into(&mut rep);
     let n = cases.len() as u64;
     rep.set("states", steps + n);
